@@ -99,8 +99,8 @@ Lemma er_clone_top : forall s stk,
   clone_top (er s) stk = (fst (clone_top s stk), er (snd (clone_top s stk))).
 Proof.
   intros. unfold clone_top. cbn [scopes er]. rewrite get_scope_ers. destruct (get_scope (scopes s) (top stk)) as [c d]. cbn [fst snd].
-  destruct (er_new_scope s c d) as [F1 F2].
-  destruct (new_scope (er s) c (erd d)) as [i s1]. destruct (new_scope s c d) as [i' s1']. cbn [fst snd] in *. subst. reflexivity.
+  destruct (er_new_scope s KClone d) as [F1 F2].
+  destruct (new_scope (er s) KClone (erd d)) as [i s1]. destruct (new_scope s KClone d) as [i' s1']. cbn [fst snd] in *. subst. reflexivity.
 Qed.
 
 Lemma report_unused_shape : forall d s, exists u, report_unused_of s d = with_unused s u.
@@ -115,11 +115,11 @@ Qed.
 Lemma er_with_unused : forall s u, er (with_unused s u) = er s.
 Proof. reflexivity. Qed.
 Lemma er_pop : forall s i, er (pop s i) = er s.
-Proof. intros. unfold pop. destruct (report_unused_shape (scope_dict s i) s) as (u & E). rewrite E. reflexivity. Qed.
+Proof. reflexivity. Qed.
 Lemma erd_raw : forall d k e, In (k, e) (erd d) -> e = Plain.
 Proof. intros d k e H. unfold erd in H. apply in_map_iff in H as (x & E & _). congruence. Qed.
 Lemma pop_er : forall s i, pop (er s) i = er s.
-Proof. intros. unfold pop. apply report_unused_plain. rewrite scope_dict_er. apply erd_raw. Qed.
+Proof. reflexivity. Qed.
 
 Lemma er_check_load : forall s cur stk n ln, er (check_load s cur stk n ln) = check_load (er s) cur stk n ln.
 Proof.
@@ -452,6 +452,7 @@ Proof.
     apply andb_true_iff in Hu as [Hu Ud]. apply andb_true_iff in Hu as [Hu Uc]. apply andb_true_iff in Hu as [Ua _].
     rewrite !vstmt_try_nohandler. rewrite (er_block f H2 Hd Ud), (er_block o H1 Hc Uc), (er_block b H Ha Ua). reflexivity.
   - reflexivity.
+  - reflexivity.
 Qed.
 
 Lemma er_vblock : forall b, s2_block b = true -> ui_block b = true ->
@@ -483,7 +484,7 @@ Proof. intros. unfold push. destruct (new_scope s (if b then KClass else KNormal
 Lemma pairs_clone_top : forall s stk, pairs (snd (clone_top s stk)) = pairs s.
 Proof. intros. unfold clone_top. destruct (get_scope (scopes s) (top stk)) as [c d]. reflexivity. Qed.
 Lemma pairs_pop : forall s i, pairs (pop s i) = pairs s.
-Proof. intros. unfold pop. destruct (report_unused_shape (scope_dict s i) s) as (u & E). rewrite E. reflexivity. Qed.
+Proof. reflexivity. Qed.
 Lemma pairs_check_load : forall s cur stk n ln, pairs (check_load s cur stk n ln) = pairs s.
 Proof.
   intros. unfold check_load. pose proof (pairs_needs s stk n) as H. destruct (needs s stk n) as [b s1]. cbn [snd] in H.
@@ -621,5 +622,6 @@ Proof.
     apply is_nil_true in Hb. subst hs.
     apply andb_true_iff in Hn as [Hn Ud]. apply andb_true_iff in Hn as [Hn Uc]. apply andb_true_iff in Hn as [Ua _].
     rewrite vstmt_try_nohandler. rewrite (pairs_block f H2 Hd Ud), (pairs_block o H1 Hc Uc), (pairs_block b H Ha Ua). reflexivity.
+  - reflexivity.
   - reflexivity.
 Qed.
